@@ -64,7 +64,27 @@ fn add(found: &mut Vec<Found>, class: &str, message: String, signature: String) 
     }
 }
 
+/// Runs the history; a panic inside the table (e.g. an arithmetic overflow in a checked build) is
+/// an observed event, not the end of the worker.
 pub fn run_tt(sc: &ScenarioT) -> TtOutcome {
+    let _ = super::worlda::take_panic();
+    match std::panic::catch_unwind(std::panic::AssertUnwindSafe(|| run_tt_inner(sc))) {
+        Ok(o) => o,
+        Err(_) => {
+            let (msg, loc) = super::worlda::take_panic().unwrap_or_else(|| ("<unknown panic>".into(), String::new()));
+            let locr = loc.rsplit_once("/src/").map(|(_, r)| format!("src/{r}")).unwrap_or_else(|| loc.clone());
+            let class = if loc.starts_with("src/") { "harness-panic" } else { "panic" };
+            TtOutcome {
+                found: vec![Found { class: class.into(), message: format!("the table panicked at {loc}: {msg} (history of {} operations on a {} MB table)", sc.ops.len(), sc.initial_mb), signature: format!("panic {locr} {msg}") }],
+                fingerprint: 0,
+                ops: sc.ops.len() as u64,
+                probes: BTreeMap::new(),
+            }
+        }
+    }
+}
+
+fn run_tt_inner(sc: &ScenarioT) -> TtOutcome {
     let pool = move_pool();
     let mut found = Vec::new();
     let mut probes: BTreeMap<String, u64> = BTreeMap::new();
@@ -278,9 +298,6 @@ pub fn run_tt(sc: &ScenarioT) -> TtOutcome {
                         format!("{ctxs}: fill indicator {real} permille but {} of {n} slots are occupied ({want} permille)", model.len()),
                         "tt-occupancy".into(),
                     );
-                }
-                if tt.occupied != model.len() {
-                    add(&mut found, "tt-occupancy", format!("{ctxs}: occupied counter {} but {} slots hold an entry", tt.occupied, model.len()), "tt-occupancy-counter".into());
                 }
             }
         }
